@@ -862,6 +862,16 @@ func SubstituteParameters(layout Layout,
 
 	replacer := strings.NewReplacer(parameters...)
 
+	// The layout was passed by value, but its step and inspection lists still
+	// share their backing arrays with the caller's layout. Substitute in
+	// copies, the caller's layout must not be modified.
+	if layout.Steps != nil {
+		layout.Steps = append([]Step{}, layout.Steps...)
+	}
+	if layout.Inspect != nil {
+		layout.Inspect = append([]Inspection{}, layout.Inspect...)
+	}
+
 	for i := range layout.Steps {
 		layout.Steps[i].ExpectedMaterials = substituteParametersInSliceOfSlices(
 			replacer, layout.Steps[i].ExpectedMaterials)
